@@ -55,6 +55,8 @@ impl ConditionalEventHandler for Logger {
     fn handle(&self, evt: &Event, n: RepeatCount, positive: bool, ctx: &EventContext) -> Option<Cmd> {
         if self.1 > 0 {
             // an application whose key handling takes time: what arrives meanwhile (keys, messages) is pending TOGETHER at the next wait
+            // (the driver is told that the key is being handled: what it sends now is pending when the handling ends)
+            logln(&self.0, "H");
             std::thread::sleep(std::time::Duration::from_millis(self.1));
         }
         if evt.get(0) == Some(&KeyEvent::ctrl('Z')) {
